@@ -17,6 +17,7 @@ package schemaClient
 import (
 	"context"
 	"fmt"
+	"sort"
 	"strings"
 	"sync"
 
@@ -130,14 +131,21 @@ func (scb *SchemaClientBoundImpl) ToPath(ctx context.Context, path []string) (*s
 		if schemaKeys := schema.GetSchema().GetContainer().GetKeys(); schemaKeys != nil {
 			// add key map
 			newPathElem.Key = make(map[string]string, len(schemaKeys))
-			// adding the keys with the value from path[i], which is the key value
+			// the key values follow in the alphabetical order of the key names (see utils.ToStrings),
+			// which is not necessarily the order of the key statement
+			keyNames := make([]string, 0, len(schemaKeys))
 			for _, k := range schemaKeys {
+				keyNames = append(keyNames, k.Name)
+			}
+			sort.Strings(keyNames)
+			// adding the keys with the value from path[i], which is the key value
+			for _, keyName := range keyNames {
 				i++
 				// a path that ends within the keys of a list must not crash the caller
 				if i >= len(path) {
 					return nil, fmt.Errorf("path %v ends within the keys of list %s", path, newPathElem.Name)
 				}
-				newPathElem.Key[k.Name] = path[i]
+				newPathElem.Key[keyName] = path[i]
 			}
 		}
 	}
